@@ -163,28 +163,38 @@ def _containers(rep, c, u, p, m, o, dw, fn, fname):
     kinds = ['list', 'ndarray', 'dict']
     if isinstance(p, HydParam):
         kinds.append('dataframe')
+    inv = from_si if fn is to_si else to_si
     for kind in kinds:
         name = 'container.%s/%s' % (kind, tag)
         try:
             if kind == 'list':
-                out = _conv(fn, u, p, [x1, x2], m, o, dw)
+                src = [x1, x2]
+                out = _conv(fn, u, p, src, m, o, dw)
                 ok = isinstance(out, list) and len(out) == 2
                 vals = out if ok else None
+                read = lambda q: list(q)
             elif kind == 'ndarray':
-                arr = np.empty(2, dtype=object)
-                arr[0], arr[1] = x1, x2
-                out = _conv(fn, u, p, arr, m, o, dw)
+                src = np.empty(2, dtype=object)
+                src[0], src[1] = x1, x2
+                out = _conv(fn, u, p, src, m, o, dw)
                 ok = isinstance(out, np.ndarray) and out.shape == (2,)
                 vals = list(out) if ok else None
+                read = lambda q: list(q)
             elif kind == 'dict':
-                out = _conv(fn, u, p, {'9': x1, '10': x2}, m, o, dw)
+                src = {'9': x1, '10': x2}
+                out = _conv(fn, u, p, src, m, o, dw)
                 ok = isinstance(out, dict) and list(out.keys()) == ['9', '10']
                 vals = [out['9'], out['10']] if ok else None
+                read = lambda q: [q['9'], q['10']]
             else:
-                df = pd.DataFrame({'b': [x1], 'a': [x2]}, index=[3600], dtype=object)
-                out = _conv(fn, u, p, df, m, o, dw)
+                src = pd.DataFrame({'b': [x1], 'a': [x2]}, index=[3600], dtype=object)
+                out = _conv(fn, u, p, src, m, o, dw)
                 ok = isinstance(out, pd.DataFrame) and list(out.columns) == ['b', 'a'] and list(out.index) == [3600]
                 vals = [out.loc[3600, 'b'], out.loc[3600, 'a']] if ok else None
+                read = lambda q: [q.loc[3600, 'b'], q.loc[3600, 'a']]
+            # the inverse, the way a caller writes it: inv(fn(x)) compared with the caller's own x after both calls
+            back = read(_conv(inv, u, p, out, m, o, dw)) if ok else None
+            mine = read(src)
         except Exception as ex:  # the documented container is rejected
             cex(kind, 'raised %s: %s' % (type(ex).__name__, ex))
             continue
@@ -192,6 +202,7 @@ def _containers(rep, c, u, p, m, o, dw, fn, fname):
             cex(kind, 'returned %s' % type(out).__name__)
             continue
         rep.prove(name, c.constraints(), z3.And(real(vals[0]) == real(s1), real(vals[1]) == real(s2)), wit(kind), 'container')
+        rep.prove(name + '/inverse-on-callers-data', c.constraints(), z3.And(real(back[0]) == real(mine[0]), real(back[1]) == real(mine[1])), wit(kind), 'container')
 
 
 def run(rep, only=None):
@@ -294,4 +305,25 @@ def replay_container(i):
         return '%s(%s) raised %s: %s' % (i['fn'], k, type(ex).__name__, ex)
     if len(v) != 2 or not (_close(v[0], s1) and _close(v[1], s2)):
         return '%s entries %r differ from scalar conversions %r' % (k, v, (s1, s2))
+    # the inverse on the caller's own data: g(f(x)) against x as the caller holds it after both calls
+    g = from_si if i['fn'] == 'to_si' else to_si
+    try:
+        if k == 'list':
+            src = [x1, x2]
+            back, mine = list(g(u, f(u, src, p, **kw), p, **kw)), list(src)
+        elif k == 'ndarray':
+            src = np.array([x1, x2])
+            back, mine = list(g(u, f(u, src, p, **kw), p, **kw)), list(src)
+        elif k == 'dict':
+            src = {'9': x1, '10': x2}
+            b_ = g(u, f(u, src, p, **kw), p, **kw)
+            back, mine = [b_['9'], b_['10']], [src['9'], src['10']]
+        else:
+            src = pd.DataFrame({'b': [x1], 'a': [x2]}, index=[3600])
+            b_ = g(u, f(u, src, p, **kw), p, **kw)
+            back, mine = [b_.loc[3600, 'b'], b_.loc[3600, 'a']], [src.loc[3600, 'b'], src.loc[3600, 'a']]
+    except Exception as ex:
+        return 'inverse of %s(%s) raised %s: %s' % (i['fn'], k, type(ex).__name__, ex)
+    if not (_close(back[0], mine[0], 1e-9) and _close(back[1], mine[1], 1e-9)):
+        return '%s: inverse(%s(x)) = %r but the caller\'s x is now %r (given %r): the input was modified in place' % (k, i['fn'], back, mine, [x1, x2])
     return None
